@@ -9,7 +9,8 @@ string is valid UTF-8 and to a base64 object holding the same bytes otherwise, a
 that the JSON readers decode to the same number (floats bit-exactly; NaN and infinities as their documented
 strings).*  Quantifier: all byte strings, all uint32/int32/int64/uint64 values, all float32/float64 bit patterns.
 
-Model: `TLVerif.Jsonp.Writer` (`JSONWriteString[Bytes]`, integer writers, `jsonWriteFloatSpecial` of
+Model: `TLVerif.Jsonp.Writer` (`JSONWriteString[Bytes]` twice: `writeStringGo` with the `start`/`i` run bookkeeping
+of the Go loop, which the driver executes, and the per-byte `writeString`, proved equal; integer writers, `jsonWriteFloatSpecial` of
 `pkg/basictl/basictl.go`), `TLVerif.Jsonp.Reader` (the generated `Json2Read*` helpers over `jlexer`),
 `TLVerif.Jsonp.Utf8`, `TLVerif.Jsonp.Base64` (the standard-library routines both sides call).
 `safeSet`, `hex`, `binaryJSONStringStart/End` are regenerated from the source (T1).
@@ -70,6 +71,14 @@ theorem base64_form_accepted_for_any_content (s rest : Bytes) :
   have := readString_b64_form s rest
   simp only [List.length_append, List.length_cons, List.length_nil] at this
   rw [this]; congr 1; omega
+
+/-- The loop as the Go code runs it — pending run `s[start:i]` copied before every escape and at the end, `start`
+reset after — emits exactly what the per-byte loop emits; the driver runs `writeStringGo`, the theorems above are
+stated about `writeString`, this equation carries them over. -/
+theorem writer_loop_refines (s : Bytes) : writeStringGo s = writeString s := writeStringGo_eq s
+
+theorem string_roundtrip_go (s rest : Bytes) : readString (writeStringGo s ++ rest) = .ok s (writeStringGo s).length := by
+  rw [writeStringGo_eq]; exact readString_writeString s rest
 
 /-- hence the string writer is injective -/
 theorem string_writer_injective (s₁ s₂ : Bytes) (h : writeString s₁ = writeString s₂) : s₁ = s₂ := by
